@@ -348,3 +348,8 @@ def run(ctx):
     from ..order import SubCtx as _Sub10
     from . import c11 as _c11
     _c11.run(_Sub10(ctx, 'C10.3-eq-hash-order-agree', 'c11', allow=('C11.3-eq-hash-fields',)))
+
+    from ..families import check_sibling_ctors as _sib
+    ctx.rule('C10.1-identifier-constructors', 'for pids, ports and references the constructor that attaches the raw node-local bytes stores the logical fields exactly as the plain constructor does', floor=3)
+    for ty_ in ('ExternalPid', 'ExternalPort', 'ExternalReference'):
+        _sib(ctx, P, 'C10.1-identifier-constructors', 'erltf::types::' + ty_, ['erltf::types::%s::new' % ty_, 'erltf::types::%s::with_local_ext_bytes' % ty_], {'local_ext_bytes'})
